@@ -366,9 +366,12 @@ class RefServer:
                         os.makedirs(self.keyring, mode=0o700, exist_ok=True)
                         with open(os.path.join(self.keyring, 'org_verif_ref'), 'wb') as f:
                             # (another implementation picks ids at random and appends: the file is in no particular order)
-                            f.write(b'2300 ' + str(int(__import__('time').time())).encode() + b' ' + b'ab' * 24 + b'\n')
-                            f.write(b'7 1 ' + b'00' * 8 + b'\n')
-                            f.write(b'11 ' + str(int(__import__('time').time())).encode() + b' ' + self.cookie + b'\n')
+                            now = str(int(__import__('time').time())).encode()
+                            lines = [b'2300 ' + now + b' ' + b'ab' * 24, b'7 1 ' + b'00' * 8, b'11 ' + now + b' ' + self.cookie]
+                            if self.external_style == 'data':
+                                lines.append(b'12000 ' + now + b' ' + b'cd' * 24)     # the wanted line is not the last one
+                            # a file is a sequence of lines; whether the last one ends in a newline is up to whoever wrote it
+                            f.write(b'\n'.join(lines) + (b'' if self.neg_answer == b'ERROR' else b'\n'))
                     self.challenge = binascii.hexlify(hashlib.sha1(b'chal' + self.nonce).digest())
                     self.state, self.mech = 'WFD', mech
                     cid = b'12' if self.cookie_mode == 'unknown-id' else b'11'
@@ -536,7 +539,10 @@ def enum_handshake(tier):
 
 def classify_handshake(case):
     return True, ['unix' if case['unix'] else 'tcp', 'neg_' + case['neg'], '+'.join(case['accept']),
-                  'cookie_' + case.get('cookie', 'ok')]
+                  'cookie_' + case.get('cookie', 'ok')] + (
+        ['keyring_' + ('wanted_line_inside' if case['external'] == 'data' else 'wanted_line_last') +
+         ('_no_final_newline' if case['neg'] == 'ERROR' else '')]
+        if 'DBUS_COOKIE_SHA1' in case['accept'] and case.get('cookie', 'ok') != 'no-keyring' else [])
 
 
 SUBCHECKS = [
